@@ -67,3 +67,21 @@ out.append(f"{n} changes; first outcome: "
            + "; now: " + ', '.join(f"{sum(1 for r in rows if r[7] == k)} {WORD[k]}" for k in 'CNM?') + ".")
 open(os.path.join(ROOT, 'seeded', 'README.md'), 'w').write('\n'.join(out) + '\n')
 print('\n'.join(out[-(n + 4):]))
+
+# ---- compact matrix for DESIGN.md (between the SEEDTABLE markers) ----
+ids = sorted({r[0].split('-')[0] for r in rows})
+byname = {r[0]: r for r in rows}
+SH = {'C': 'C', 'N': 'n', 'M': 'MISS', '?': '?'}
+m = ["| id | round 1 | round 2 | round 3 |", "|---|---|---|---|"]
+for i in ids:
+    cells = []
+    for suf in ('', '-2', '-3'):
+        r = byname.get(i + suf)
+        cells.append('–' if r is None else (f"{SH[r[6]]} → {SH[r[7]]}" if r[6] != r[7] else SH[r[7]]))
+    m.append(f"| {i} | " + ' | '.join(cells) + " |")
+dz = os.path.join(ROOT, 'DESIGN.md')
+t = open(dz).read()
+a, b = '<!-- SEEDTABLE -->', '<!-- /SEEDTABLE -->'
+if a in t and b in t:
+    t = t[:t.index(a) + len(a)] + '\n' + '\n'.join(m) + '\n\n' + out[-1] + '\n' + t[t.index(b):]
+    open(dz, 'w').write(t)
